@@ -34,7 +34,10 @@ type capsEntry struct {
 	Probes map[string]int `json:"probes"`
 }
 
-func runCaps(e *capsEntry, implicit bool, n int) []string {
+// used: before the upgrade the plaintext connection has a history of its own
+// (an authentication where plaintext AUTH is allowed, an open transaction):
+// what is advertised and honoured afterwards is the entry's all the same.
+func runCaps(e *capsEntry, implicit bool, n int, used bool) []string {
 	var problems []string
 	bad := func(f string, a ...interface{}) { problems = append(problems, fmt.Sprintf(f, a...)) }
 	c := e.Cfg
@@ -73,6 +76,11 @@ func runCaps(e *capsEntry, implicit bool, n int) []string {
 	}
 	if e.Active && !implicit {
 		code(verb + " pre.test")
+		if used {
+			code("AUTH PLAIN AHVzZXIAcGFzcw==")
+			code("MAIL FROM:<pre@x.test>")
+			code("RCPT TO:<pre@x.test>")
+		}
 		if code("STARTTLS") != 220 {
 			return append(problems, "STARTTLS refused although TLS is configured")
 		}
@@ -180,13 +188,22 @@ func init() {
 			if e.Active && e.Cfg.TlsConfigured {
 				variants = []bool{false, true} // via STARTTLS and implicit TLS
 			}
+			type variant struct{ implicit, used bool }
+			var vs []variant
 			for _, implicit := range variants {
+				vs = append(vs, variant{implicit, false})
+				if e.Active && !implicit && e.Cfg.TlsConfigured {
+					vs = append(vs, variant{false, true})
+				}
+			}
+			for _, v := range vs {
+				implicit, used := v.implicit, v.used
 				wg.Add(1)
 				go func(e *capsEntry, implicit bool) {
 					defer wg.Done()
 					sem <- struct{}{}
 					defer func() { <-sem }()
-					probs := runCaps(e, implicit, n)
+					probs := runCaps(e, implicit, n, used)
 					mu.Lock()
 					defer mu.Unlock()
 					nrun++
@@ -195,8 +212,8 @@ func init() {
 						if i := strings.Index(p, ":"); i > 0 {
 							kind = p[:i]
 						}
-						run.Report(evid.Div{Prop: "C12", Key: fmt.Sprintf("caps:%s:active=%v:implicit=%v:lmtp=%v", kind, e.Active, implicit, e.Cfg.Lmtp),
-							Msg: fmt.Sprintf("configuration %+v, TLS active=%v (implicit=%v): %s", e.Cfg, e.Active, implicit, p), Replay: map[string]interface{}{"engine": "caps", "entry": e, "implicit": implicit}})
+						run.Report(evid.Div{Prop: "C12", Key: fmt.Sprintf("caps:%s:active=%v:implicit=%v:lmtp=%v:used=%v", kind, e.Active, implicit, e.Cfg.Lmtp, used),
+							Msg: fmt.Sprintf("configuration %+v, TLS active=%v (implicit=%v, plaintext history before the upgrade=%v): %s", e.Cfg, e.Active, implicit, used, p), Replay: map[string]interface{}{"engine": "caps", "entry": e, "implicit": implicit, "used": used}})
 					}
 				}(e, implicit)
 			}
